@@ -35,12 +35,17 @@ class Probe:
 class C:
     """scratch experiment topology for one probe call (fresh every time: nothing leaks between cases)"""
 
-    def __init__(self, I):
+    def __init__(self, I, keep=False):
+        """keep=True: the sliver / element an entry point is applied to is created once and handed out again by every later call
+        in this context - a history of calls (accepted, refused, accepted ...) then works on ONE kept object"""
         self.I = I
         self.fu = I.fu
         self.t = I.fu.ExperimentTopology()
         self._k = 0
         self.el = None              # the existing element an entry point is applied to (for read-back after a rejection)
+        self.keep = keep
+        self._kept = {}
+        self.objs = []              # every sliver / element handed out as the target of an entry point
 
     def close(self):
         """the NetworkX store is one shared graph: leaving scratch topologies in it makes every later query slower"""
@@ -74,11 +79,34 @@ class C:
         return self.t.add_link(name=self.fresh("l"), ltype=self.fu.LinkType.Patch, interfaces=[a.interface_list[0], b.interface_list[0]], **kw)
 
     def elem(self, kind):
+        if self.keep and ("e", kind) in self._kept:
+            self.el = self._kept[("e", kind)]
+            return self.el
+        self.el = self._elem(kind)
+        self._kept[("e", kind)] = self.el
+        self.objs.append(self.el)
+        return self.el
+
+    def _elem(self, kind):
         self.el = {"Node": self.node, "Component": self.gpu, "Interface": self.iface, "NetworkService": self.service, "Link": self.link}[kind]()
         return self.el
 
     def sliver(self, cls):
-        return self.I.classes[cls]()
+        if self.keep and ("s", cls) in self._kept:
+            return self._kept[("s", cls)]
+        s = self.I.classes[cls]()
+        self._kept[("s", cls)] = s
+        self.objs.append(s)
+        return s
+
+    def obj(self, key, factory):
+        """a value object (Labels ...) an in-place entry point is applied to: kept across the calls of a history in keep mode"""
+        if self.keep and ("o", key) in self._kept:
+            return self._kept[("o", key)]
+        o = factory()
+        self._kept[("o", key)] = o
+        self.objs.append(o)
+        return o
 
     def all_props(self):
         gm = self.t.graph_model
@@ -139,7 +167,7 @@ def _labels_ctor(c, v, d, val):
 
 
 def _labels_setf(c, v, d, val):
-    return c.I.cl.Labels(local_name="p")._set_fields(**{val[0]: val[1]})
+    return c.obj("Labels", lambda: c.I.cl.Labels(local_name="p"))._set_fields(**{val[0]: val[1]})
 
 
 def _labels_update_kw(c, v, d, val):
